@@ -144,6 +144,9 @@ PROPS = {
             {"group": "g0", "name": "c02_header_counts_inc_total", "kind": "complete", "tier": "quick",
              "what": "HeaderCounts::inc_{qd,an,ns,ar}count on every 12-octet header: exact increment, CountOverflow exactly at 0xFFFF, "
                      "all other counts and the first four header octets unchanged"},
+            {"group": "g0", "name": "c02_stream_target_length_limit", "kind": "complete", "tier": "quick",
+             "what": "StreamTarget::append_slice over a target whose length jumps by a symbolic amount: refused exactly when the message "
+                     "would exceed 65535 octets, prefix == message length after every accepted append, for every length up to 65590"},
             {"group": "g0", "name": "c02_stream_target_prefix_bounded", "kind": "bounded", "tier": "quick",
              "bound": "StreamTarget<Array<12>>, three operations (append <= 6 octets, truncate, append <= 6 octets), all contents",
              "what": "after every append_slice/truncate the two-octet prefix equals the message length; a refused append leaves the message unchanged"},
@@ -244,7 +247,13 @@ PROPS = {
     "C15": {
         "level": "other",
         "units": ["queries"],
-        "kani": [],
+        "kani": [
+            {"group": "repo_client", "name": "c15_queries_match_model_bounded", "kind": "bounded", "tier": "quick", "timeout": 600,
+             "bound": "every sequence of 4 operations (insert / try_remove of any index / try_remove + insert_at) on an empty table, all values",
+             "what": "compiled Queries against an array model: an ID handed out is never still outstanding, try_remove returns "
+                     "exactly the stored item, count and is_empty agree with the model (also the companion that decides when the "
+                     "Verus unit loses an anchor after a restructuring)"},
+        ],
         "explanation": "contract on the data structure that ties a response to its request on a multiplexed stream (message ID = slot "
                        "index of net/client/stream.rs::Queries): representation invariant (count == number of occupied slots, all slots "
                        "below curr occupied, at most 65535 slots so every index fits a 16-bit ID) is preserved by new/insert/insert_at/"
